@@ -441,7 +441,8 @@ class TemperatureServiceData(ServiceData):
     @property  # type: ignore[override]
     def data(self) -> float:
         """This attribute is a `float` value."""
-        return struct.unpack("<i", self._data[:3] + b"\0")[0] * 10**-2
+        pad = b"\xff" if self._data[2:3] >= b"\x80" else b"\0"  # sign-extend 24 -> 32 bits
+        return struct.unpack("<i", self._data[:3] + pad)[0] * 10**-2
 
     @data.setter
     def data(self, value: Union[float, bytes, bytearray]):
